@@ -137,7 +137,7 @@ Proof.
     by (rewrite map_length; cbn [length]; lia).
   rewrite device_pass_id. fold (flatp (p :: ps)). rewrite flatp_cons, <- app_assoc.
   rewrite (law_send F L) by (apply pid_lt; exact Hp).
-  unfold wire_of, ReqRepBacktrace.wire_of. cbn [pm_hdr pm_body]. rewrite <- app_assoc, be32_wb. reflexivity.
+  unfold wire_of, ReqRepBacktrace.wire_of. cbn [pm_hdr pm_body]. rewrite <- app_assoc. reflexivity.
 Qed.
 
 (* ====================================================================== chains *)
@@ -175,7 +175,7 @@ Proof.
     destruct (length acc <? h_ttl h) eqn:E.
     + assert (E' : (h_ttl h <? S (length acc)) = false) by (apply Nat.ltb_ge; apply Nat.ltb_lt in E; lia).
       rewrite E'.
-      rewrite (IH (h_pid h :: acc) (S (S (length acc))) id body Hh2) by (auto; constructor; [apply Hh1|exact Ha]).
+      rewrite (IH (h_pid h :: acc) (S (S (length acc))) id body Hh2 (Forall_cons _ (proj1 Hh1) Ha) Hid eq_refl).
       unfold crossed. destruct (first_fail (S (S (length acc))) r) as [k|] eqn:Ef.
       * apply first_fail_ge in Ef as G. replace (k - S (length acc)) with (S (k - S (S (length acc)))) by lia.
         cbn [firstn map trace_spec]. reflexivity.
@@ -286,7 +286,7 @@ Section FloodBound.
     intros I Hg. unfold flood_step. induction live as [|[[v p] w] r IH]; [reflexivity|]. cbn [flat_map].
     destruct (forward v p w) as [w'|] eqn:E.
     - destruct (I v p w (or_introl eq_refl)) as [A B]. destruct (fwd_lead _ _ _ _ _ A B E). lia.
-    - cbn [app]. apply IH. intros v' p' w' H. apply I. right. exact H.
+    - cbn [app]. apply IH. intros v' p' w' H. apply (I v' p' w'). right. exact H.
   Qed.
   Lemma flood_nil g : flood node forward edges g [] = [].
   Proof. induction g; cbn; auto. Qed.
@@ -310,12 +310,11 @@ Section FloodBound.
   Proof.
     induction k as [|k IH]; intros g live I Hg; [reflexivity|]. cbn [flood_forwards].
     rewrite (flood_step_dead g live I Hg), flood_forwards_nil.
-    assert (Z : filter (fun a : node * N * list N => let '(v, p, w) := a in
-                  match forward v p w with Some _ => true | None => false end) live = []).
+    match goal with |- length (filter ?f live) + _ = 0 => assert (Z : filter f live = []) end.
     { induction live as [|[[v p] w] r IHl]; [reflexivity|]. cbn [filter].
       destruct (forward v p w) as [w'|] eqn:E.
       - destruct (I v p w (or_introl eq_refl)) as [A B]. destruct (fwd_lead _ _ _ _ _ A B E). lia.
-      - apply IHl. intros v' p' w' H. apply I. right. exact H. }
+      - apply IHl. intros v' p' w' H. apply (I v' p' w'). right. exact H. }
     rewrite Z. reflexivity.
   Qed.
   Theorem flood_forwards_bounded : forall k g live, live_inv g live ->
